@@ -27,6 +27,8 @@ Ops == {<<n, k>> : n \in K1, k \in Keys}
        \cup {<<"retain_nonempty">>, <<"clear">>, <<"reserve", <<>>>>, <<"remove_typed_repo">>, <<"get_typed_repo">>,
              <<"try_get_typed_checksum">>, <<"retain_mut_set", <<120>>>>, <<"iter_mut_set", <<>>>>}
        \cup {<<"insert_typed_repo", v>> : v \in Vals}
+       \cup {<<"insert_typed", n, <<120>>>> : n \in KnownNames} \cup {<<"get_typed", n>> : n \in KnownNames}
+       \cup {<<"remove_typed", n>> : n \in KnownNames} \cup {<<"insert_typed_badkey", <<120>>>>}
        \cup {<<"try_insert_typed_checksum", c>> : c \in CkTyped}
        \cup {<<"insert", CHECKSUM, <<122,122>>>>, <<"insert", CHECKSUM, <<66,58,48,65,44,97,58,102,70>>>>}
        \cup {<<"try_from_iter", ps>> : ps \in PairLists}
